@@ -118,8 +118,8 @@ Lemma gmc_certificate : forall cfg st m st1 r, c_gm cfg = true -> cs_phase st = 
   client_handshake_step cfg st m = (st1, r) ->
   exists certs,
     m = MCertificate certs /\ r = SContinue /\ (2 <= length certs)%nat /\ gm_cert_checks 0 certs = true /\
-    (c_verify cfg = true -> mem (cert_id (nth_cert 0 certs)) (c_trusted cfg) = true /\
-                             mem (cert_id (nth_cert 1 certs)) (c_trusted cfg) = true) /\
+    (c_verify cfg = true -> tmem (nth_cert 0 certs) (c_trusted cfg) = true /\
+                             tmem (nth_cert 1 certs) (c_trusted cfg) = true) /\
     st1 = mkCS CP_AfterCert (cs_warn st) (cs_vers st) (cs_fp st) (cs_sh st) (cs_kx st) certs None false false
                (cs_master st) (cs_tr st ++ [enc_hmsg m]) (cs_out st).
 Proof.
@@ -355,7 +355,7 @@ Definition gm_full_flight_ok (cfg : cconfig) (f : gm_flight) (st' : cstate) : Pr
     mutualCipherSuite gmCipherSuites (c_suites cfg) (sh_suite (gf_sh f)) = Some su /\
     processServerHello cfg (gf_sh f) su = Some false /\
     (2 <= length (gf_certs f))%nat /\ gm_cert_checks 0 (gf_certs f) = true /\
-    (c_verify cfg = true -> mem (cert_id c0) (c_trusted cfg) = true /\ mem (cert_id c1) (c_trusted cfg) = true) /\
+    (c_verify cfg = true -> tmem c0 (c_trusted cfg) = true /\ tmem c1 (c_trusted cfg) = true) /\
     ((su_kx su = KxECC /\ verify (cert_pub c0) (gf_sig f) (skx_payload cr sr c1) = true /\
       pms = TPMS (c_pms cfg) /\ ckxm = MClientKeyExchange true (TEnc (cert_pub c1) (TPMS (c_pms cfg)))) \/
      (su_kx su = KxECDHE_GM /\ verify (cert_pub c0) (gf_sig f) (skx_payload cr sr (gf_params f)) = true /\
